@@ -199,6 +199,13 @@ pub fn execute(case: &Case, rep: &mut RunReport) -> Result<(), Violation> {
     store.set_response_delay(simcore::store::seeded_response_delay(case.seed));
     let nexus = block(open_nexus(&store)).map_err(|e| violation!("c17.boot", "nexus failed to open on the base image: {e}"))?;
     let session = nexus.system_session();
+    // two governed sessions: a writer without the destructive actions and a
+    // reader; their refusals ("authorization") must leave no trace either
+    crate::c19::agent(&nexus, crate::c19::WRITER)?;
+    crate::c19::agent(&nexus, crate::c19::READER)?;
+    crate::c19::read_grant(&nexus, crate::c19::READER, "", "", false)?;
+    crate::c19::writer_grant(&nexus, &["read", "search", "discover", "project", "read_history", "create", "update", "assert", "record_attributed_assertion", "assert_as_actor", "retract_own", "supersede_own"])?;
+    let governed = [nexus.session(anda_cognitive_nexus::governance::AuthContext::principal(crate::c19::WRITER)), nexus.session(anda_cognitive_nexus::governance::AuthContext::principal(crate::c19::READER))];
     let mut reg = Registry::default();
     let mut grng = Rng::stream(case.gen_seed, "stmts");
     let mut last_seq = 0u64;
@@ -217,7 +224,21 @@ pub fn execute(case: &Case, rep: &mut RunReport) -> Result<(), Violation> {
             None => sgen::generate(&mut grng, &reg),
         };
         let before = block(dump(&session, &known(&reg), None));
-        let out = block(exec_p(&session, &st.text, &st.params, st.dry_run));
+        // who sends it is a function of the statement, so shrinking keeps it
+        let who = {
+            let mut h = Sig::default();
+            h.add_str(&st.text);
+            simcore::rng::derive(case.gen_seed ^ h.0, "who") % 6
+        };
+        let sender = match who {
+            4 => &governed[0],
+            5 => &governed[1],
+            _ => &session,
+        };
+        if who >= 4 {
+            rep.probe("statements_by_governed_sessions", 1);
+        }
+        let out = block(exec_p(sender, &st.text, &st.params, st.dry_run));
         sig.add_str(&st.family);
         sig.add_str(&out.status);
         sig.add_str(out.error.as_deref().unwrap_or(""));
